@@ -104,6 +104,14 @@ func (l *memoryBlockList) Init(
 }
 
 func (l *memoryBlockList) Destroy() error {
+	// Release nothing unless every block can be released: a block that still has allocations
+	// reports them and fails without touching the device
+	for _, block := range l.blocks {
+		if !block.metadata.IsEmpty() {
+			return block.Destroy()
+		}
+	}
+
 	for _, block := range l.blocks {
 		err := block.Destroy()
 		if err != nil {
